@@ -385,7 +385,7 @@ def body(ck, quick, exes, lower_exe, work, always):
     ncorp = corpus_stage(ck, exes, work, always)
     ck.stage("corpus", evaluations=ncorp)
     # ---- (a) unit level
-    nunit = 2500 if quick else 30000
+    nunit = 2500 if quick else 100000
     diffs, nfun, kinds = unit_stage(ck, lower_exe, work, nunit, always)
     ck.stage("unit", functions=nfun, diffs=len(diffs))
     for fn, c, l, P in diffs[:3]:
@@ -394,13 +394,18 @@ def body(ck, quick, exes, lower_exe, work, always):
                                "function": fn, "source": [mirgen.fmt_insn(i) for i in src[0][3]] if src else None,
                                "library": c, "model": l})
     # ---- (b) whole programs
-    nprog = 150 if quick else 2500
+    nprog = 200 if quick else 10000
     progs = []
-    feat, gstats = {}, {}
+    feat, gstats, shapes = {}, {}, {}
     census = {}
     for k in range(nprog):
-        kind = k % 3
-        if kind == 0:
+        kind = k % 4
+        if kind == 3:
+            P, es = c04_gen.gen_shape_program(ck.rng, f"s{k}")
+            for s_, v in P.stats.items():
+                shapes[s_] = shapes.get(s_, 0) + v
+            progs.append((P, es, None))
+        elif kind == 0:
             fp = ck.rng.chance(1, 2)
             P, es = mirgen.gen_program(ck.rng, f"m{k}", opts=dict(jmpi=False, fp=fp))
             P.funcs = [(n, h, l, c04_gen.sanitize(i)) for n, h, l, i in P.funcs]
@@ -459,12 +464,12 @@ def body(ck, quick, exes, lower_exe, work, always):
     ck.cov["programs"] = nprog
     ck.cov["unit_functions"] = nfun
     ck.cov["rule"] = ("(a) every generated unit function is a distinct draw of (instruction class x operand shapes) and is non-trivial when "
-                      "simplify_func changes it (all do: at least one lowering/rewrite applies); (b) every program is a distinct draw; one third "
-                      "lib/mirgen.py programs (2 helpers called by call/inline), two thirds checks/c04_gen.py programs (1-4 small callers, each "
+                      "simplify_func changes it (all do: at least one lowering/rewrite applies); (b) every program is a distinct draw; one quarter "
+                      "lib/mirgen.py programs (2 helpers called by call/inline), one quarter executable rewrite-shape programs, one half checks/c04_gen.py programs (1-4 small callers, each "
                       "with 1-3 call sites of feature helpers); each program runs with "
                       f"{len(mirgen.ARGSETS)} argument sets through builds {list(BUILDS)} x engines {ENGINES}, MirCore as written and MirCore on the "
                       "model-simplified program; results, the 576-byte buffer and the external-call log are compared")
-    ck.cov["distribution"] = {"unit_function_kinds": kinds, "c04_program_features": feat, "mirgen_constructs": gstats,
+    ck.cov["distribution"] = {"unit_function_kinds": kinds, "c04_program_features": feat, "rewrite_shape_snippets": shapes, "mirgen_constructs": gstats,
                               "programs_with_mircore_oracle": ncore, "corpus_evaluations": ncorp,
                               "threshold_census_default_build (callee size -> [`call` sites, `inline` sites, calls left after link])": census,
                               "failure_classes": len(classes), "round_always_variant": always}
